@@ -14,6 +14,7 @@ import importlib.machinery
 import itertools
 import json
 import os
+import warnings
 import shutil
 import sys
 import tempfile
@@ -148,6 +149,76 @@ def ext_modules(ctx, tmp):
                 ctx.violation('import-resolution', {'what': 'modname_to_modpath(%r) = %r but the interpreter\'s finder resolves it to %r (tree with extension modules %r)' % (
                     name, got if got is None or str(got).startswith('raised') else os.path.relpath(got, root), exp and os.path.relpath(exp, root), sorted(entries)),
                     'tree': sorted(entries), 'theorem_or_correspondence': 'implementation vs importlib.machinery.FileFinder (extension suffixes)'}, True)
+
+
+def symlink_trees(ctx, tmp):
+    """modules and packages that are visible on the search path through symbolic links (a link named differently from its
+    target, a linked package directory): the interpreter imports them under the name of the LINK; the four functions must agree with
+    it.  Implementation against importlib's finder (no model: the model's file system has no links)"""
+    from xdoctest.utils import util_import
+    rng = ctx.rng('links')
+    nv = 0
+    for n in range(40 if ctx.tier == 'quick' else 400):
+        root = os.path.join(tmp, 'ln%d' % n, 'site')
+        store = os.path.join(tmp, 'ln%d' % n, 'store')
+        os.makedirs(os.path.join(root, 'pkg'))
+        os.makedirs(os.path.join(store, 'actual_pkg_src', 'inner'))
+        open(os.path.join(root, 'pkg', '__init__.py'), 'w').write('')
+        for rp in ('real_impl_v2.py', 'actual_pkg_src/__init__.py', 'actual_pkg_src/sub_mod.py', 'actual_pkg_src/inner/__init__.py', 'actual_pkg_src/inner/leaf.py'):
+            open(os.path.join(store, rp), 'w').write('VALUE = %r\n' % rp)
+        links = []
+        if rng.random() < 0.8:
+            os.symlink(os.path.join(store, 'real_impl_v2.py'), os.path.join(root, 'pkg', 'alias_mod.py'))
+            links.append('pkg.alias_mod')
+        if rng.random() < 0.8:
+            os.symlink(os.path.join(store, 'actual_pkg_src'), os.path.join(root, 'linkpkg'))
+            links += ['linkpkg', 'linkpkg.sub_mod', 'linkpkg.inner', 'linkpkg.inner.leaf']
+        if rng.random() < 0.5:
+            os.symlink(os.path.join(store, 'real_impl_v2.py'), os.path.join(root, 'top_alias.py'))
+            links.append('top_alias')
+        for name in links + ['pkg']:
+            ctx.evaluations += 1
+            exp = finder_resolve(root, name)
+            problems = []
+            try:
+                got = util_import.modname_to_modpath(name, sys_path=[root])
+            except Exception as e:
+                got = 'raised:' + type(e).__name__
+            if got != exp:
+                problems.append('modname_to_modpath(%r) = %r, the interpreter resolves it to %r' % (name, got, exp))
+            elif got is not None:
+                try:
+                    back = util_import.modpath_to_modname(got)
+                except Exception as e:
+                    back = 'raised:' + type(e).__name__
+                if back != name:
+                    problems.append('round trip %r -> %r -> %r' % (name, os.path.relpath(got, root), back))
+                try:
+                    d, rp = util_import.split_modpath(got)
+                    if os.path.join(d, rp) != got or os.path.realpath(d) != os.path.realpath(root):
+                        problems.append('split_modpath(%r) = %r' % (os.path.relpath(got, root), (d, rp)))
+                except Exception as e:
+                    problems.append('split_modpath raised %s' % type(e).__name__)
+                if os.path.isfile(got):
+                    before = list(sys.path)
+                    try:
+                        with warnings.catch_warnings():
+                            warnings.simplefilter('ignore')
+                            mod = util_import.import_module_from_path(got)
+                        if mod.__name__ != name:
+                            problems.append('import_module_from_path(%r) returned the module named %r' % (os.path.relpath(got, root), mod.__name__))
+                    except Exception as e:
+                        problems.append('import_module_from_path(%r) raised %s: %s' % (os.path.relpath(got, root), type(e).__name__, str(e)[:100]))
+                    if sys.path != before:
+                        problems.append('import_module_from_path changed sys.path')
+                        sys.path[:] = before
+                    for k in [k for k in sys.modules if k.split('.')[0] in ('pkg', 'linkpkg', 'top_alias', 'actual_pkg_src', 'real_impl_v2')]:
+                        del sys.modules[k]
+            if problems and nv < 4:
+                nv += 1
+                ctx.violation('import-resolution', {'what': 'tree with symbolic links %r: %s' % (links, '; '.join(problems)[:900]), 'links': links,
+                              'theorem_or_correspondence': 'implementation vs importlib.machinery.FileFinder (symbolic links)'}, True)
+    ctx.count('symlink_trees', 40 if ctx.tier == 'quick' else 400)
 
 
 def rel(root, p):
@@ -374,6 +445,7 @@ def run(ctx):
         two_roots(ctx, tmp)
         import_by_path(ctx, tmp)
         ext_modules(ctx, tmp)
+        symlink_trees(ctx, tmp)
     finally:
         shutil.rmtree(tmp, ignore_errors=True)
     ctx.exhaustive = True
@@ -382,7 +454,7 @@ def run(ctx):
                  'two-root search paths; import_module_from_path on 6 module kinds x index x 5 arrangements of sys.path (module root absent / front / middle / last / twice); non-trivial = tree in which some name resolves' % (5 if quick else 6, len(NAMES)))
     ctx.sample({'tree': trees[40], 'names': NAMES[:5]})
     ctx.sample({'tree': trees[-1]})
-    ctx.assumptions += ['symlinks, case-insensitive file systems, extension modules, egg-links and editable-install finders are outside the model (never generated)',
+    ctx.assumptions += ['symbolic links and extension modules are outside the MODEL (two strata compare the implementation with the interpreter\'s finder directly); case-insensitive file systems, egg-links and editable-install finders are never generated',
                         'PEP 420 namespace portions count as "nothing there" (reading note)']
 
 
